@@ -29,8 +29,12 @@ def _simple_arg(e: ast.AST) -> bool:
     return isinstance(e, ast.Constant) or path_of(e) is not None
 
 
+def _is_static(fn: ast.FunctionDef) -> bool:
+    return len(fn.decorator_list) == 1 and isinstance(fn.decorator_list[0], ast.Name) and fn.decorator_list[0].id == "staticmethod"
+
+
 def _inlinable(fn: ast.FunctionDef) -> bool:
-    if fn.decorator_list or fn.args.vararg or fn.args.kwarg or fn.args.kwonlyargs or fn.args.posonlyargs:
+    if (fn.decorator_list and not _is_static(fn)) or fn.args.vararg or fn.args.kwarg or fn.args.kwonlyargs or fn.args.posonlyargs:
         return False
     body = [s for s in fn.body if not (isinstance(s, ast.Expr) and isinstance(s.value, ast.Constant))]
     if not body:
@@ -139,10 +143,17 @@ def inline_new_helpers(tree: ast.Module, relpath: str) -> int:
         funcs = {s.name: s for s in container_body if isinstance(s, ast.FunctionDef)}
         new = [f for name, f in funcs.items() if (prefix + name) not in ref and name.startswith("_") and not name.startswith("__") and _inlinable(f)]
         for helper in new:
-            is_method = is_class and helper.args.args and helper.args.args[0].arg in ("self", "cls")
-            callee = (f"self.{helper.name}" if is_method else helper.name)
+            static = _is_static(helper)
+            if static and not is_class:
+                continue
+            is_method = is_class and not static and helper.args.args and helper.args.args[0].arg in ("self", "cls")
+            if static:
+                # a static helper is reached as self.h(...) or Class.h(...); neither binds a receiver
+                callee = (f"self.{helper.name}", f"{prefix.rstrip('.').split('.')[-1]}.{helper.name}")
+            else:
+                callee = ((f"self.{helper.name}",) if is_method else (helper.name,))
             remaining = 0
-            sites_before = sum(1 for other in funcs.values() if other is not helper for n in ast.walk(other) if isinstance(n, ast.Call) and path_of(n.func) == callee)
+            sites_before = sum(1 for other in funcs.values() if other is not helper for n in ast.walk(other) if isinstance(n, ast.Call) and path_of(n.func) in callee)
             if sites_before == 0:
                 continue  # never called from its own class/module: not an extracted helper — leave it for the rules to see
             for other in list(funcs.values()):
@@ -167,11 +178,11 @@ def inline_new_helpers(tree: ast.Module, relpath: str) -> int:
                 st = body[i]
                 call = None
                 form = None
-                if isinstance(st, ast.Expr) and isinstance(st.value, ast.Call) and path_of(st.value.func) == callee:
+                if isinstance(st, ast.Expr) and isinstance(st.value, ast.Call) and path_of(st.value.func) in callee:
                     call, form = st.value, "expr"
-                elif isinstance(st, ast.Assign) and len(st.targets) == 1 and isinstance(st.value, ast.Call) and path_of(st.value.func) == callee:
+                elif isinstance(st, ast.Assign) and len(st.targets) == 1 and isinstance(st.value, ast.Call) and path_of(st.value.func) in callee:
                     call, form = st.value, "assign"
-                elif isinstance(st, ast.Return) and isinstance(st.value, ast.Call) and path_of(st.value.func) == callee:
+                elif isinstance(st, ast.Return) and isinstance(st.value, ast.Call) and path_of(st.value.func) in callee:
                     call, form = st.value, "return"
                 if call is not None:
                     tgt_names = {x.id for t in (st.targets if isinstance(st, ast.Assign) else []) for x in ast.walk(t) if isinstance(x, ast.Name)}
@@ -204,7 +215,7 @@ def inline_new_helpers(tree: ast.Module, relpath: str) -> int:
                 i += 1
         rewrite(fn.body)
         for n in ast.walk(fn):
-            if isinstance(n, ast.Call) and path_of(n.func) == callee:
+            if isinstance(n, ast.Call) and path_of(n.func) in callee:
                 left += 1
         return left
 
@@ -225,7 +236,90 @@ def inline_new_temps(prog) -> int:
         total += n
         if n == 0:
             break
+    prog.increment_stores_restored = restore_increment_stores(prog)
+    if total or prog.increment_stores_restored or getattr(prog, "temp_uses_replaced", 0):
+        # temporaries folded back may have re-created `x = x + e` where the reference writes `x += e`
+        for rel, mod in prog.modules.items():
+            restore_spellings(mod.tree, rel)
     return total
+
+
+def restore_increment_stores(prog) -> int:
+    """`n = self._x + k ... self._x = n` for the reference's `self._x += k`: where the reference function has the augmented spelling that the
+    analysed function lacks, a plain store `P = T` of a local T is rewritten to `P += e` when the must-alias fact `T == P + e` holds on
+    entry to the store (FactFlow: no write to P, T or e's operands since T was computed).  Same value stored at the same point."""
+    from .effects import Effects
+    from .facts import FactFlow
+
+    ref_all = localnames.reference()
+    spell = ref_all.get("__spellings__", {})
+    effects = None
+    done = 0
+    for rel, mod in prog.modules.items():
+        sp = spell.get(rel)
+        if not sp:
+            continue
+        for fn in mod.all_functions:
+            top = fn
+            while top.parent is not None:
+                top = top.parent
+            q = (top.cls.name + "." if top.cls is not None else "") + top.name
+            want = set(sp.get(q, {}).get("aug", []))
+            if not want:
+                continue
+            have = {_txt(n) for n in ast.walk(fn.node) if isinstance(n, ast.AugAssign)}
+            missing = want - have
+            if not missing:
+                continue
+            cands = [st for st in walk_scope(fn.node, include_root=False) if isinstance(st, ast.Assign) and len(st.targets) == 1
+                     and (isinstance(st.value, ast.Name) or (isinstance(st.value, ast.BinOp) and isinstance(st.value.left, ast.Name)))
+                     and path_of(st.targets[0]) is not None and not isinstance(st.targets[0], ast.Name)]
+            if not cands:
+                continue
+            if effects is None:
+                effects = Effects(prog)
+            try:
+                ff = FactFlow(prog, fn, effects)
+            except Exception:  # noqa: BLE001
+                continue
+            for st in cands:
+                nd = next((n_ for n_ in ff.cfg.nodes if n_.ast is st), None)
+                if nd is None:
+                    continue
+                ptxt = unparse(st.targets[0])
+                if isinstance(st.value, ast.BinOp):
+                    # `P = T op e` with the must-alias `T == P` (T = P read earlier, nothing written since): the same as `P op= e`
+                    if ff.same_value(nd, st.value.left.id, ptxt):
+                        aug = ast.AugAssign(target=st.targets[0], op=st.value.op, value=st.value.right)
+                        if _txt(aug) in missing:
+                            for parent in ast.walk(fn.node):
+                                for fld in ("body", "orelse", "finalbody"):
+                                    blk = getattr(parent, fld, None)
+                                    if isinstance(blk, list) and st in blk:
+                                        blk[blk.index(st)] = ast.fix_missing_locations(ast.copy_location(aug, st))
+                                        done += 1
+                    continue
+                for sig in list((ff.state_in.get(nd.id) or {}).keys()):
+                    if sig[0] != "eq":
+                        continue
+                    other = sig[2] if sig[1] == st.value.id else (sig[1] if sig[2] == st.value.id else None)
+                    if not other:
+                        continue
+                    try:
+                        e = ast.parse(other, mode="eval").body
+                    except SyntaxError:
+                        continue
+                    if isinstance(e, ast.BinOp) and unparse(e.left) == ptxt:
+                        aug = ast.AugAssign(target=st.targets[0], op=e.op, value=e.right)
+                        if _txt(aug) in missing:
+                            for parent in ast.walk(fn.node):
+                                for fld in ("body", "orelse", "finalbody"):
+                                    blk = getattr(parent, fld, None)
+                                    if isinstance(blk, list) and st in blk:
+                                        blk[blk.index(st)] = ast.fix_missing_locations(ast.copy_location(aug, st))
+                                        done += 1
+                            break
+    return done
 
 
 def _inline_new_temps_once(prog) -> int:
@@ -303,6 +397,7 @@ def _inline_new_temps_once(prog) -> int:
                         kept[n.id] += 1
                     return n
             T().visit(fn.node)
+            prog.temp_uses_replaced = getattr(prog, "temp_uses_replaced", 0) + sum(replaced.values())
             for name, st in cands.items():
                 if kept[name] == 0 and replaced[name] > 0:
                     for parent in ast.walk(fn.node):
@@ -320,6 +415,319 @@ def _inline_new_temps_once(prog) -> int:
     return removed
 
 
+# ------------------------------------------------------------------------------------------------- new predicate helpers
+def inline_new_predicates(tree: ast.Module, relpath: str) -> int:
+    """A private function/method absent from the reference tree whose whole body is `return <expr>` (no yield/await/lambda; parameters
+    used as plain names) is an *extracted expression*: every call `self.h(a, b)` / `h(a, b)` with simple arguments is replaced by
+    `<expr>[params := args]`, evaluated at the same point.  A `bool(...)` wrapper around the expression is dropped where the call is
+    used directly as a branch condition (if/while/assert test, operand of not/and/or inside one) — truthiness is all such a context reads."""
+    ref = localnames.reference().get("__units__", {}).get(relpath)
+    if ref is None:
+        return 0
+    ref = set(ref)
+    done = 0
+
+    def body_expr(fn):
+        body = [s_ for s_ in fn.body if not (isinstance(s_, ast.Expr) and isinstance(s_.value, ast.Constant))]
+        if len(body) != 1 or not isinstance(body[0], ast.Return) or body[0].value is None:
+            return None
+        e = body[0].value
+        if any(isinstance(x, (ast.Yield, ast.YieldFrom, ast.Await, ast.Lambda, ast.NamedExpr, ast.ListComp, ast.SetComp, ast.DictComp, ast.GeneratorExp)) for x in ast.walk(e)):
+            return None
+        return e
+
+    def process(container_body, prefix, is_class):
+        nonlocal done
+        funcs = {s_.name: s_ for s_ in container_body if isinstance(s_, ast.FunctionDef)}
+        for name, h in list(funcs.items()):
+            if (prefix + name) in ref or not name.startswith("_") or name.startswith("__"):
+                continue
+            static = _is_static(h)
+            if (h.decorator_list and not static) or h.args.vararg or h.args.kwarg or h.args.kwonlyargs or h.args.posonlyargs:
+                continue
+            e = body_expr(h)
+            if e is None:
+                continue
+            is_method = is_class and not static and h.args.args and h.args.args[0].arg == "self"
+            if is_class and not static and not is_method:
+                continue
+            callee = (f"self.{name}",) if is_method else ((f"self.{name}", f"{prefix.rstrip('.').split('.')[-1]}.{name}") if static else (name,))
+            params = [a.arg for a in h.args.args][1 if is_method else 0:]
+            dmap = dict(zip(params[len(params) - len(h.args.defaults):], h.args.defaults)) if h.args.defaults else {}
+            # each parameter must be read at most once, or be bound to a side-effect-free argument (checked per call)
+            reads = {p_: sum(1 for x in ast.walk(e) if isinstance(x, ast.Name) and x.id == p_) for p_ in params}
+            left = 0
+            sites = 0
+
+            def instantiate(call):
+                if len(call.args) > len(params) or any(isinstance(a, ast.Starred) for a in call.args):
+                    return None
+                actual = dict(zip(params, call.args))
+                for k in call.keywords:
+                    if k.arg is None or k.arg not in params or k.arg in actual:
+                        return None
+                    actual[k.arg] = k.value
+                for p_ in params:
+                    if p_ not in actual:
+                        if p_ not in dmap:
+                            return None
+                        actual[p_] = dmap[p_]
+                if not all(_simple_arg(v) for v in actual.values()):
+                    return None
+                return _Subst(actual).visit(copy.deepcopy(e))
+
+            class R(ast.NodeTransformer):
+                def __init__(self):
+                    self.cond = False
+
+                def _test(self, t):
+                    old, self.cond = self.cond, True
+                    r = self.visit(t)
+                    self.cond = old
+                    return r
+
+                def visit_If(self, n):
+                    n.test = self._test(n.test)
+                    n.body = [self.visit(x) for x in n.body]
+                    n.orelse = [self.visit(x) for x in n.orelse]
+                    return n
+
+                def visit_While(self, n):
+                    n.test = self._test(n.test)
+                    n.body = [self.visit(x) for x in n.body]
+                    n.orelse = [self.visit(x) for x in n.orelse]
+                    return n
+
+                def visit_BoolOp(self, n):
+                    n.values = [self.visit(v) for v in n.values]
+                    return n
+
+                def visit_UnaryOp(self, n):
+                    if isinstance(n.op, ast.Not):
+                        old, self.cond = self.cond, True
+                        n.operand = self.visit(n.operand)
+                        self.cond = old
+                        return n
+                    old, self.cond = self.cond, False
+                    self.generic_visit(n)
+                    self.cond = old
+                    return n
+
+                def visit_Call(self, n):
+                    nonlocal left, sites
+                    cond = self.cond
+                    self.cond = False
+                    self.generic_visit(n)
+                    self.cond = cond
+                    if path_of(n.func) in callee:
+                        sites += 1
+                        inst = instantiate(n)
+                        if inst is None:
+                            left += 1
+                            return n
+                        if cond and isinstance(inst, ast.Call) and isinstance(inst.func, ast.Name) and inst.func.id == "bool" and len(inst.args) == 1 and not inst.keywords:
+                            inst = inst.args[0]
+                        for x in ast.walk(inst):
+                            if hasattr(x, "lineno"):
+                                x.lineno, x.end_lineno, x.col_offset, x.end_col_offset = n.lineno, n.end_lineno, n.col_offset, n.end_col_offset
+                        return ast.copy_location(inst, n)
+                    return n
+
+                def generic_visit(self, n):
+                    if isinstance(n, ast.expr) and not isinstance(n, (ast.BoolOp,)):
+                        old, self.cond = self.cond, False
+                        r = super().generic_visit(n)
+                        self.cond = old
+                        return r
+                    return super().generic_visit(n)
+
+            for other in funcs.values():
+                if other is not h:
+                    R().visit(other)
+                    ast.fix_missing_locations(other)
+            if sites and not left:
+                refs = sum(1 for x in ast.walk(tree) if (isinstance(x, ast.Attribute) and x.attr == name) or (isinstance(x, ast.Name) and x.id == name))
+                if refs == 0:
+                    container_body.remove(h)
+                    done += 1
+
+    process(tree.body, "", False)
+    for st in ast.walk(tree):
+        if isinstance(st, ast.ClassDef):
+            process(st.body, st.name + ".", True)
+    return done
+
+
+# ------------------------------------------------------------------------------------------------- adjacent single-use temps
+def _first_evaluated(stmt: ast.stmt, target: ast.Name) -> bool:
+    """Is ``target`` (a Name load inside ``stmt``) evaluated exactly once, unconditionally, and before anything in ``stmt`` that could have
+    an effect or observe one (calls, subscripts, yields)?  Then `T = E; stmt(T)` and `stmt(E)` evaluate the same things in the same order."""
+    state = {"impure": False, "found": False, "bad": False}
+
+    def contains(n):
+        return any(x is target for x in ast.walk(n))
+
+    def forbid(n):
+        if n is not None and contains(n):
+            state["bad"] = True
+
+    def ev(n):
+        if n is None or state["found"] or state["bad"]:
+            return
+        if n is target:
+            state["found"] = True
+            if state["impure"]:
+                state["bad"] = True
+            return
+        if isinstance(n, (ast.Constant, ast.Name)):
+            return
+        if isinstance(n, ast.Attribute):
+            ev(n.value)
+        elif isinstance(n, ast.BinOp):
+            ev(n.left); ev(n.right)
+        elif isinstance(n, ast.UnaryOp):
+            ev(n.operand)
+        elif isinstance(n, ast.BoolOp):
+            ev(n.values[0])
+            for v in n.values[1:]:
+                forbid(v)
+            if not state["found"]:
+                state["impure"] = True
+        elif isinstance(n, ast.Compare):
+            ev(n.left); ev(n.comparators[0])
+            for v in n.comparators[1:]:
+                forbid(v)
+            if not state["found"] and len(n.comparators) > 1:
+                state["impure"] = True
+        elif isinstance(n, ast.Call):
+            ev(n.func)
+            for a in n.args:
+                ev(a)
+            for k in n.keywords:
+                ev(k.value)
+            if not state["found"]:
+                state["impure"] = True
+        elif isinstance(n, ast.Subscript):
+            ev(n.value); ev(n.slice)
+            if not state["found"]:
+                state["impure"] = True
+        elif isinstance(n, ast.Slice):
+            ev(n.lower); ev(n.upper); ev(n.step)
+        elif isinstance(n, ast.IfExp):
+            ev(n.test); forbid(n.body); forbid(n.orelse)
+            if not state["found"]:
+                state["impure"] = True
+        elif isinstance(n, (ast.Tuple, ast.List, ast.Set)):
+            for e in n.elts:
+                ev(e)
+        elif isinstance(n, ast.Dict):
+            for k, v in zip(n.keys, n.values):
+                ev(k); ev(v)
+        elif isinstance(n, ast.Starred):
+            ev(n.value)
+        elif isinstance(n, ast.JoinedStr):
+            for v in n.values:
+                ev(v)
+        elif isinstance(n, ast.FormattedValue):
+            ev(n.value); ev(n.format_spec)
+            if not state["found"]:
+                state["impure"] = True
+        elif isinstance(n, (ast.Yield, ast.YieldFrom, ast.Await)):
+            ev(n.value)
+            if not state["found"]:
+                state["impure"] = True
+        else:
+            # lambdas, comprehensions, walrus, anything else: evaluation may be deferred or repeated
+            forbid(n)
+            state["impure"] = True
+
+    if isinstance(stmt, (ast.Return, ast.Expr)):
+        ev(stmt.value)
+    elif isinstance(stmt, ast.Assign):
+        ev(stmt.value)
+        for t in stmt.targets:
+            forbid(t)
+    elif isinstance(stmt, ast.AnnAssign):
+        ev(stmt.value); forbid(stmt.target)
+    elif isinstance(stmt, ast.AugAssign):
+        forbid(stmt.target)
+        if isinstance(stmt.target, ast.Name):
+            ev(stmt.value)
+        else:
+            state["bad"] = True
+    elif isinstance(stmt, ast.If):
+        ev(stmt.test)
+        for b in stmt.body + stmt.orelse:
+            forbid(b)
+    elif isinstance(stmt, ast.For):
+        ev(stmt.iter); forbid(stmt.target)
+        for b in stmt.body + stmt.orelse:
+            forbid(b)
+    elif isinstance(stmt, ast.Raise):
+        ev(stmt.exc); forbid(stmt.cause)
+    else:
+        return False
+    return state["found"] and not state["bad"]
+
+
+def inline_adjacent_temps(tree: ast.Module, relpath: str) -> int:
+    """`T = E` immediately followed (same block) by the only statement that reads T, where T does not exist on the reference tree, every
+    binding of T in the function has that form, and T is the first thing the next statement evaluates: the pair is rewritten to the next
+    statement with E in place of T.  Evaluation order is unchanged by construction (E may be any expression, calls included), so this is
+    the exact inverse of "introduce a temporary for the returned / passed / tested expression"."""
+    all_units = localnames.reference().get("__units__", {}).get(relpath)
+    if all_units is None:
+        return 0
+    ref = localnames.reference().get(relpath) or {}  # functions without locals are not recorded there
+    done = 0
+    for q, fn in localnames.units(tree):
+        if q not in all_units:
+            continue
+        known = {w[0] for w in ref.get(q, [])}
+        for _round in range(6):
+            cur = set(localnames.locals_of(fn))
+            new = cur - known
+            if not new:
+                break
+            stores, loads = {}, {}
+            for n in ast.walk(fn):
+                if isinstance(n, ast.Name) and n.id in new:
+                    (stores if isinstance(n.ctx, ast.Store) else loads).setdefault(n.id, []).append(n)
+            pairs = {}  # name -> list of (block, index, target load node)
+            for parent in ast.walk(fn):
+                blocks = [getattr(parent, f, None) for f in ("body", "orelse", "finalbody")] if not isinstance(parent, (ast.Lambda, ast.IfExp)) else []
+                for c_ in getattr(parent, "cases", []) or []:
+                    blocks.append(c_.body)
+                for blk in blocks:
+                    if not (isinstance(blk, list) and blk and isinstance(blk[0], ast.stmt)):
+                        continue
+                    for i, st in enumerate(blk[:-1]):
+                        if isinstance(st, ast.Assign) and len(st.targets) == 1 and isinstance(st.targets[0], ast.Name) and st.targets[0].id in new:
+                            name = st.targets[0].id
+                            nxt = blk[i + 1]
+                            uses = [x for x in ast.walk(nxt) if isinstance(x, ast.Name) and x.id == name and isinstance(x.ctx, ast.Load)]
+                            if len(uses) == 1 and not any(isinstance(x, ast.Name) and x.id == name for x in ast.walk(st.value)) and _first_evaluated(nxt, uses[0]):
+                                pairs.setdefault(name, []).append((blk, st, nxt, uses[0]))
+            progressed = False
+            for name, ps in pairs.items():
+                if len(ps) != len(stores.get(name, [])) or len(ps) != len(loads.get(name, [])):
+                    continue  # bound or read somewhere else as well: leave it
+                # a statement may be the consumer of one temp per round only
+                for blk, st, nxt, use in ps:
+                    class R(ast.NodeTransformer):
+                        def visit_Name(self, n):
+                            return ast.copy_location(st.value, n) if n is use else n
+                    R().visit(nxt)
+                    blk.remove(st)
+                    done += 1
+                    progressed = True
+                break  # recompute after each temp (pairs of other temps may have moved)
+            if not progressed:
+                break
+        ast.fix_missing_locations(fn)
+    return done
+
+
 # ------------------------------------------------------------------------------------------------- spellings
 _MIRROR = {ast.Lt: ast.Gt, ast.Gt: ast.Lt, ast.LtE: ast.GtE, ast.GtE: ast.LtE}
 _NEGATE = {ast.In: ast.NotIn, ast.NotIn: ast.In, ast.Eq: ast.NotEq, ast.NotEq: ast.Eq, ast.Is: ast.IsNot, ast.IsNot: ast.Is,
@@ -332,7 +740,7 @@ def _txt(n) -> str:
 
 def spelling_record(fn: ast.FunctionDef) -> dict:
     """What the reference keeps per function: the texts of its ordered comparisons, augmented assignments and if-tests."""
-    cmps, augs, ifs = set(), set(), set()
+    cmps, augs, ifs, mms = set(), set(), set(), set()
     for n in ast.walk(fn):
         if isinstance(n, ast.Compare) and len(n.ops) == 1 and type(n.ops[0]) in _MIRROR:
             cmps.add(_txt(n))
@@ -340,7 +748,14 @@ def spelling_record(fn: ast.FunctionDef) -> dict:
             augs.add(_txt(n))
         elif isinstance(n, ast.If):
             ifs.add(_txt(n.test))
-    return {"cmp": sorted(cmps), "aug": sorted(augs), "if": sorted(ifs)}
+        elif _is_minmax2(n):
+            mms.add(_txt(n))
+    return {"cmp": sorted(cmps), "aug": sorted(augs), "if": sorted(ifs), "mm": sorted(mms)}
+
+
+def _is_minmax2(n) -> bool:
+    return isinstance(n, ast.Call) and isinstance(n.func, ast.Name) and n.func.id in ("min", "max") and len(n.args) == 2 and not n.keywords \
+        and not any(isinstance(a, ast.Starred) for a in n.args)
 
 
 def _negated(test: ast.AST) -> ast.AST | None:
@@ -349,6 +764,40 @@ def _negated(test: ast.AST) -> ast.AST | None:
     if isinstance(test, ast.Compare) and len(test.ops) == 1 and type(test.ops[0]) in _NEGATE:
         return ast.Compare(left=test.left, ops=[_NEGATE[type(test.ops[0])]()], comparators=test.comparators)
     return ast.UnaryOp(op=ast.Not(), operand=test)
+
+
+def flatten_else(tree: ast.Module) -> int:
+    """Canonical form, applied to every analysed module: an `else` after a branch that cannot fall through adds nothing —
+    `if c: ...; return` / `else: REST` is rewritten to `if c: ...; return` followed by REST in the same block (also through elif chains).
+    Exactly the same paths execute; the rules then see one shape whether or not the author wrote the redundant `else`."""
+    n_done = 0
+
+    def terminates(body):
+        return bool(body) and isinstance(body[-1], (ast.Return, ast.Raise, ast.Continue, ast.Break))
+
+    def block(b):
+        nonlocal n_done
+        out = []
+        for st in b:
+            for fld in ("body", "orelse", "finalbody"):
+                sub = getattr(st, fld, None)
+                if isinstance(sub, list) and sub and isinstance(sub[0], ast.stmt):
+                    setattr(st, fld, block(sub))
+            for h in getattr(st, "handlers", []) or []:
+                h.body = block(h.body)
+            for c_ in getattr(st, "cases", []) or []:
+                c_.body = block(c_.body)
+            if isinstance(st, ast.If) and st.orelse and terminates(st.body):
+                rest, st.orelse = st.orelse, []
+                n_done += 1
+                out.append(st)
+                out.extend(rest)
+            else:
+                out.append(st)
+        return out
+
+    tree.body = block(tree.body)
+    return n_done
 
 
 def restore_spellings(tree: ast.Module, relpath: str) -> int:
@@ -363,7 +812,7 @@ def restore_spellings(tree: ast.Module, relpath: str) -> int:
         r = ref.get(q)
         if not r:
             continue
-        rc, ra, ri = set(r["cmp"]), set(r["aug"]), set(r["if"])
+        rc, ra, ri, rm = set(r["cmp"]), set(r["aug"]), set(r["if"]), set(r.get("mm", []))
 
         class T(ast.NodeTransformer):
             def visit_Compare(self, n):
@@ -372,6 +821,18 @@ def restore_spellings(tree: ast.Module, relpath: str) -> int:
                 if len(n.ops) == 1 and type(n.ops[0]) in _MIRROR and _txt(n) not in rc:
                     m = ast.Compare(left=n.comparators[0], ops=[_MIRROR[type(n.ops[0])]()], comparators=[n.left])
                     if _txt(m) in rc:
+                        n_done += 1
+                        return ast.copy_location(m, n)
+                return n
+
+            def visit_Call(self, n):
+                nonlocal n_done
+                self.generic_visit(n)
+                # max(b, a) for the reference's max(a, b): the same value for numbers (the two differ only on NaN operands and on which of
+                # two equal operands is returned — nothing any rule looks at)
+                if _is_minmax2(n) and _txt(n) not in rm:
+                    m = ast.Call(func=n.func, args=[n.args[1], n.args[0]], keywords=[])
+                    if _txt(m) in rm:
                         n_done += 1
                         return ast.copy_location(m, n)
                 return n
@@ -397,6 +858,31 @@ def restore_spellings(tree: ast.Module, relpath: str) -> int:
                         return ast.copy_location(ast.If(test=neg, body=n.orelse, orelse=n.body), n)
                 return n
         T().visit(fn)
+
+        # swapped early return: `if not c: REST; A` for the reference's `if c: A; REST` (both A and REST leave the block) — undone at
+        # block level: the same paths, the same statements, only which arm is written as the guard differs
+        def terminates(body):
+            return bool(body) and isinstance(body[-1], (ast.Return, ast.Raise, ast.Continue, ast.Break))
+
+        def unswap(b):
+            nonlocal n_done
+            for st in b:
+                for fld in ("body", "orelse", "finalbody"):
+                    sub = getattr(st, fld, None)
+                    if isinstance(sub, list) and sub and isinstance(sub[0], ast.stmt) and not isinstance(st, (ast.FunctionDef, ast.AsyncFunctionDef, ast.ClassDef)):
+                        setattr(st, fld, unswap(sub))
+                for h in getattr(st, "handlers", []) or []:
+                    h.body = unswap(h.body)
+            for i, st in enumerate(b[:-1]):
+                rest = b[i + 1:]
+                if isinstance(st, ast.If) and not st.orelse and terminates(st.body) and terminates(rest) and _txt(st.test) not in ri:
+                    neg = _negated(st.test)
+                    if neg is not None and _txt(neg) in ri:
+                        n_done += 1
+                        new_if = ast.copy_location(ast.If(test=neg, body=rest, orelse=[]), st)
+                        return b[:i] + [new_if] + unswap(st.body)
+            return b
+        fn.body = unswap(fn.body)
         ast.fix_missing_locations(fn)
     return n_done
 
